@@ -269,6 +269,7 @@ typedef struct ctx {
     bool deser[NSLOT];
     unsigned recno;
     unsigned nrec;
+    unsigned executed;
     int exhaustive; /* sweep: test contains() on all 65536 values */
     unsigned flags; /* F_* observed in this history */
     /* per-case class counters, flushed once */
@@ -337,15 +338,21 @@ static int check_contains(ctx *c, unsigned s, int64_t v, const char *after) {
     return 0;
 }
 
-/* iterator and ToArray strictly ascending and equal to the model */
-static int check_full(ctx *c, unsigned s, const char *site, const char *after) {
+/* iterator and/or ToArray strictly ascending and equal to the model.  Both
+ * walk the whole container (65536 steps for a BITMAP container), so the
+ * whole-object operations, which are compared after every record, use one of
+ * the two in turn; the regular cadence uses both. */
+enum { FULL_ITER = 1, FULL_TOARRAY = 2, FULL_BOTH = 3 };
+
+static int check_full(ctx *c, unsigned s, const char *site, const char *after,
+                      unsigned how) {
     const varintBitmap *vb = c->vb[s];
     uint32_t n = m_list(&c->m[s], g_members);
     c->nFull++;
     varintBitmapIterator it = varintBitmapCreateIterator(vb);
     uint32_t k = 0;
     int32_t prev = -1;
-    while (varintBitmapIteratorNext(&it)) {
+    while ((how & FULL_ITER) && varintBitmapIteratorNext(&it)) {
         uint32_t v = it.currentValue;
         if ((int32_t)v <= prev) {
             return FAILF(c, site, "order",
@@ -372,13 +379,16 @@ static int check_full(ctx *c, unsigned s, const char *site, const char *after) {
         prev = (int32_t)v;
         k++;
     }
-    if (k != n) {
+    if ((how & FULL_ITER) && k != n) {
         return FAILF(c, site, "count",
                      "record %u (%s): slot %u iterator stopped after %u "
                      "elements, model has %u (next missing member %u, "
                      "container %s)",
                      c->recno, after, s, k, n, (unsigned)g_members[k],
                      type_name(slot_type(c, s)));
+    }
+    if (!(how & FULL_TOARRAY)) {
+        return 0;
     }
     /* ToArray into a buffer of exactly cardinality elements */
     uint16_t *out = (uint16_t *)vf_exact_alloc((size_t)n * sizeof(uint16_t));
@@ -500,6 +510,11 @@ static int apply(ctx *c, const rec *r) {
     unsigned typeBefore = slot_type(c, d);
     int inplace = 1;
     int forceFull = 0;
+    /* which of the two whole-container walks the extra comparisons use */
+    unsigned alt = c->exhaustive     ? FULL_BOTH
+                   : (c->recno & 1) ? FULL_ITER
+                                    : FULL_TOARRAY;
+    unsigned dstHow = c->exhaustive ? FULL_BOTH : (alt ^ FULL_BOTH);
     int64_t nb[16];
     unsigned nnb = 0;
     nb[nnb++] = 0;
@@ -577,7 +592,7 @@ static int apply(ctx *c, const rec *r) {
         forceFull = 1;
         /* the source must be unchanged */
         if (r->s1 != d && (check_card(c, r->s1, "clone source") ||
-                           check_full(c, r->s1, "clone.source", after))) {
+                           check_full(c, r->s1, "clone.source", after, FULL_TOARRAY))) {
             return 1;
         }
         break;
@@ -637,10 +652,10 @@ static int apply(ctx *c, const rec *r) {
         /* operands unchanged: full comparison against their (unchanged)
          * models, before the destination slot is replaced */
         if (check_card(c, r->s1, "binary-op operand") ||
-            check_full(c, r->s1, "binop.operand", after) ||
+            check_full(c, r->s1, "binop.operand", after, alt) ||
             (r->s2 != r->s1 &&
              (check_card(c, r->s2, "binary-op operand") ||
-              check_full(c, r->s2, "binop.operand", after)))) {
+              check_full(c, r->s2, "binop.operand", after, alt)))) {
             varintBitmapFree(nv);
             return 1;
         }
@@ -696,7 +711,7 @@ static int apply(ctx *c, const rec *r) {
         }
         /* the encoded object must be unchanged */
         if (check_card(c, d, "serialise source") ||
-            check_full(c, d, "encode.source", after)) {
+            check_full(c, d, "encode.source", after, alt)) {
             varintBitmapFree(nv);
             return 1;
         }
@@ -811,9 +826,12 @@ static int apply(ctx *c, const rec *r) {
             c->flags |= F_CROSS_DOWN;
         }
     }
-    if (forceFull || md->card <= 1024 || (c->recno & 7) == 7 ||
-        c->recno + 1 == c->nrec) {
-        if (check_full(c, d, "iterate", after)) {
+    if (md->card <= 1024 || (c->recno & 7) == 7 || c->recno + 1 == c->nrec) {
+        if (check_full(c, d, "iterate", after, FULL_BOTH)) {
+            return 1;
+        }
+    } else if (forceFull) {
+        if (check_full(c, d, "iterate", after, dstHow)) {
             return 1;
         }
     }
@@ -878,7 +896,7 @@ static void flush_classes(const ctx *c) {
     if ((c->flags & F_CROSS_UP) && (c->flags & F_CROSS_DOWN)) {
         vf_class("history.cross.both");
     }
-    vf_class_n("records", c->recno);
+    vf_class_n("records", c->executed);
 }
 
 /* runs a decoded history; returns the hash of the record sequence */
@@ -903,15 +921,16 @@ static uint64_t run_history(const rec *recs, unsigned n, vf_report *rep,
             goto done;
         }
     }
-    if (check_full(c, 0, "iterate", "create")) {
+    if (check_full(c, 0, "iterate", "create", FULL_BOTH)) {
         goto done;
     }
     for (unsigned i = 0; i < n; i++) {
         c->recno = i;
+        c->executed = i + 1;
         h = rec_hash(h, &recs[i]);
-        if (describe && rep->desclen < 560) {
+        if (describe && rep->desclen < 500) {
             rec_desc(rep, &recs[i]);
-            if (rep->desclen >= 560 && i + 1 < n) {
+            if (rep->desclen >= 500 && i + 1 < n) {
                 vf_desc(rep, "...(+%u records)", n - 1 - i);
             }
         }
@@ -919,12 +938,11 @@ static uint64_t run_history(const rec *recs, unsigned n, vf_report *rep,
             goto done;
         }
     }
-    c->recno = n;
     /* at the end: every slot in full */
+    c->recno = n - 1;
     for (unsigned s = 0; s < NSLOT; s++) {
-        c->recno = n ? n - 1 : 0;
         if (check_card(c, s, "end of history") ||
-            check_full(c, s, "iterate", "end of history")) {
+            check_full(c, s, "iterate", "end of history", FULL_BOTH)) {
             goto done;
         }
         if (exhaustive && c->m[s].card &&
@@ -932,16 +950,15 @@ static uint64_t run_history(const rec *recs, unsigned n, vf_report *rep,
             goto done;
         }
     }
-    c->recno = n;
 done:
     for (unsigned s = 0; s < NSLOT; s++) {
         varintBitmapFree(c->vb[s]);
         c->vb[s] = NULL;
     }
-    if (!rep->violated) {
-        c->recno = n;
+    if (!exhaustive) {
+        /* class counters describe the generated histories only */
+        flush_classes(c);
     }
-    flush_classes(c);
     return h;
 }
 
@@ -1129,8 +1146,8 @@ void vf_sweep(vf_report *rep) {
             uint32_t len = LEN_TBL[li];
             for (unsigned pos = 0; pos < 3; pos++) {
                 uint32_t lo = pos == 0 ? 0 : pos == 1 ? 100 : 65535 - len;
-                if (lo + len > 65535) {
-                    lo = 65535 - len;
+                if (lo + len > 65535 || (pos == 1 && len <= 4096)) {
+                    continue;
                 }
                 s_build(&s, 0, kind);
                 s_range(&s, 0, true, lo, lo + len);
@@ -1167,8 +1184,12 @@ void vf_sweep(vf_report *rep) {
         }
     }
     /* S3: set algebra over every pair of kinds */
-    for (unsigned ka = 0; ka < K_COUNT; ka++) {
-        for (unsigned kb = 0; kb < K_COUNT; kb++) {
+    static const uint8_t algebraKinds[8] = {
+        K_EMPTY,       K_SMALL,    K_ARRAY4096,          K_BITMAP4097,
+        K_BITMAP30000, K_RUNS5000, K_CLEARED_BITMAP_FEW, K_DESER_RUNS};
+    for (unsigned ia = 0; ia < 8; ia++) {
+        for (unsigned ib = 0; ib < 8; ib++) {
+            unsigned ka = algebraKinds[ia], kb = algebraKinds[ib];
             s_build(&s, 0, ka);
             s_build(&s, 1, kb);
             s_simple(&s, OP_OR, 2, 0, 1);
